@@ -1459,6 +1459,7 @@ struct TagOut {
     node_requests: u64,
     down_node_cases: u64,
     histories: u64,
+    perturbations: u64,
     big_fleet_broadcasts: u64,
     history_broadcasts: u64,
     findings: Vec<(String, String, Value)>,
@@ -1688,7 +1689,7 @@ fn run_tag_history(kind: Kind, seed: u64, nodes: &[Arc<FakeNode>], rt: &tokio::r
     for _ in 0..steps {
         let which = if r.below(2) == 0 { &fleet } else { &twin };
         let i = r.usize_below(nodes.len());
-        match r.below(10) {
+        match r.below(12) {
             0..=2 => {
                 let tags = all_subs[r.usize_below(all_subs.len())].clone();
                 let c = node_config(&names[i], nodes[i].port, &tags, timeout);
@@ -1733,6 +1734,28 @@ fn run_tag_history(kind: Kind, seed: u64, nodes: &[Arc<FakeNode>], rt: &tokio::r
                     return;
                 }
             }
+            6 | 7 => {
+                // connection-cache perturbations between broadcasts (no verdict on their own return values: the statement
+                // speaks about calls and broadcasts; what they must not do is change whom the next broadcast addresses or
+                // leave a node unreachable)
+                let what = r.below(4);
+                let name = ["disconnect_all", "connect_all", "reconnect_disconnected", "health_check"][what as usize];
+                match (which, what) {
+                    (AnyFleet::Sync(f), 0) => drop(f.disconnect_all()),
+                    (AnyFleet::Sync(f), 1) => drop(f.connect_all()),
+                    (AnyFleet::Sync(f), 2) => drop(f.reconnect_disconnected()),
+                    (AnyFleet::Sync(f), _) => drop(f.health_check("/c19b/health")),
+                    (AnyFleet::Async(f), 0) => drop(rt.block_on(f.disconnect_all())),
+                    (AnyFleet::Async(f), 1) => drop(rt.block_on(f.connect_all())),
+                    (AnyFleet::Async(f), 2) => drop(rt.block_on(f.reconnect_disconnected())),
+                    (AnyFleet::Async(f), _) => drop(rt.block_on(f.health_check("/c19b/health"))),
+                }
+                hist.push(name.to_string());
+                out.perturbations += 1;
+                for nd in nodes {
+                    let _ = drain_paths(nd);
+                }
+            }
             _ => {
                 let mut q = if r.below(4) == 0 { queries[r.usize_below(queries.len())].clone() } else { hot[r.usize_below(hot.len())].clone() };
                 if r.below(3) == 0 {
@@ -1762,7 +1785,7 @@ fn run_tags(args: &Args) -> Report {
          filter_nodes, for Fleet and AsyncFleet; plus passes with one node down; oracle: result names = nodes carrying ALL \
          requested tags, one result each holding that node's own reply, and on the node side exactly one request at each \
          addressed node and none elsewhere; distinct = (kind, node tag sets, requested set, down node, entry point). Plus dynamic-membership histories (600 quick / 6000 thorough): one fleet \
-         and a clone of it through random add_node / remove_node / keys / broadcast / map_reduce steps with a few recurring \
+         and a clone of it through random add_node / remove_node / keys / disconnect_all / connect_all / reconnect_disconnected / health_check / broadcast / map_reduce steps with a few recurring \
          requests, every broadcast judged the same way against the member -> tags model at that moment",
     );
     install_probe(); // only counts: fleet.attempt fires on broadcast threads that carry no case
@@ -1831,6 +1854,7 @@ fn run_tags(args: &Args) -> Report {
         rep.count("node_side_requests_matched", o.node_requests);
         rep.count("passes_with_a_node_down", o.down_node_cases);
         rep.count("membership_histories_completed", o.histories);
+        rep.count("connection_cache_perturbations_inside_histories", o.perturbations);
         rep.count("broadcasts_to_fleets_of_5_to_65_nodes", o.big_fleet_broadcasts);
         rep.count("broadcasts_inside_membership_histories", o.history_broadcasts);
         for (sig, detail, sc) in o.findings {
